@@ -54,6 +54,7 @@ def outcome_reads_masked(ctx, rep, rule):
     fn = r.RUN.qualname
     n = 0
     sinks = an.events('SPAWN', 'WAIT', 'RET', 'SHUT', 'TIDY', 'AUG', 'COUNTCMP')
+    unread = []
     for e in sinks:
         if e.kind == 'TIDY' and e.data.get('what') != 'jobs':
             continue                    # tidying finished tasks is not a scheduling decision
@@ -64,6 +65,12 @@ def outcome_reads_masked(ctx, rep, rule):
                 continue
             n += 1
             if masked_fact(k):
+                continue
+            if k[0] == 'comp' or (k[0] == 'call' and k[1] in ('any', 'all')):
+                # the outcome is read through a filtered list (`failed = [t for t in done if raised(t)]`, then
+                # `any(critical(t) for t in failed)`): whether the two tests together amount to the masked test is
+                # not something this rule reads off one fact
+                unread.append(T.show(k, 4))
                 continue
             bad.append("path condition `%s` is %s" % (T.show(k, 4), v))
         # (b) data terms of the sink
@@ -87,6 +94,9 @@ def outcome_reads_masked(ctx, rep, rule):
                   "; ".join(bad)[:400],
                   "whether a non-critical job returned or raised changes what the scheduler does next "
                   "(which jobs start, when the run ends, or its verdict)", trace(e.st))
+    if unread:
+        rep.error(rule, "job outcomes are tested through a filtered list (%s): whether that is the masked test `raised "
+                  "and critical` cannot be read off the path conditions one by one" % sorted(set(unread))[0][:160])
     # outcome reads that only select finished tasks for cancelling/gathering are effect-free
     for e in an.events('TIDY', 'AWAIT_ALL'):
         coll = e.data.get('coll')
@@ -150,3 +160,45 @@ def feedback_cannot_raise(ctx, rep, rule):
                          "reporting a job's outcome can abort the run")
     rep.ok(rule, "%d diagnostic functions reachable from the run's feedback: no raise, no unguarded first/last "
                  "subscript" % len(seen))
+
+
+def diagnosis_reads_flags_only(ctx, rep, rule):
+    """the diagnosis accessors (did the run time out? did a critical job fail? why?) are functions of what the run
+    recorded about itself - never of what the jobs returned or raised: a non-critical job is free to raise anything,
+    TimeoutError included"""
+    import ast
+    from ..index import walk_local
+    r = ctx.roles
+    n = 0
+    for name in ('failed_time_out', 'failed_critical', 'why'):
+        f = ctx.prog.supplier(r.sched, name)
+        if f is None:
+            rep.error(rule, "accessor %s not found" % name)
+            continue
+        seen, stack = {}, [f]
+        while stack:
+            g = stack.pop()
+            if g.qualname in seen or len(seen) > 12:
+                continue
+            seen[g.qualname] = g
+            for node in walk_local(g.node):
+                if isinstance(node, ast.Attribute) and isinstance(node.value, ast.Name) and node.value.id == 'self':
+                    m = ctx.prog.supplier(r.sched, node.attr)
+                    if m is not None and not m.is_async:
+                        stack.append(m)
+        for g in seen.values():
+            for node in walk_local(g.node):
+                bad = None
+                if isinstance(node, ast.Attribute) and node.attr in OUTCOME_ATTRS:
+                    bad = node
+                elif isinstance(node, ast.Call) and isinstance(node.func, ast.Attribute) and node.func.attr in OUTCOME_CALLS \
+                        and not (isinstance(node.func.value, ast.Name) and node.func.value.id == 'self'):
+                    bad = node
+                if bad is not None:
+                    rep.fail(rule, "%s:%d %s() looks at a job's outcome" % (g.module.relpath, bad.lineno, name),
+                             g.qualname, "`%s`" % src(bad)[:100],
+                             "what a non-critical job returned or raised changes the diagnosis of the run (and, in a "
+                             "critical nested scheduler, the exception it raises)")
+        n += 1
+        rep.ok(rule, "%s(): %d function(s) read, none looks at a job's outcome" % (name, len(seen)))
+    rep.need(rule, n, 3, "diagnosis accessors")
